@@ -187,6 +187,19 @@ def r11_2(ctx: Ctx) -> RuleResult:
                         rets = [r for r in hs[0].body if isinstance(r, ast.Return)]
                         if rets and isinstance(rets[0].value, ast.Constant) and rets[0].value.value is None:
                             ok = True
+        # no other way out: every return is the first element or the None of the StopIteration handler
+        extra = [
+            r for r in ast.walk(m.node)
+            if isinstance(r, ast.Return) and not (
+                len(tries) == 1 and (r in tries[0].body or any(r in h.body for h in tries[0].handlers))
+            )
+        ]
+        if ok and extra:
+            ok = False
+            rr.bad(m, extra[0], f"{cls.name}.match returns `{short(extra[0])}` on a path that does not take the first "
+                   "element of self.finditer(...): match() can then disagree with finditer/findall",
+                   construct=f"{cls.name}.match: extra return {short(extra[0])}")
+            continue
         if ok:
             rr.ok(m.loc(), f"{cls.name}.match: first element of self.finditer(...) or None")
         else:
@@ -220,6 +233,12 @@ def _plan(ctx: Ctx, fn: FuncInfo) -> Tuple[Dict[str, str], List[str]]:
     plan: Dict[str, str] = {}
     base = fn.name
     body = _strip_docstring(fn.node.body)
+    # a leading `if isinstance(data, IOBase): data = load_data(data)` is the single loader (R11.7)
+    body = [
+        s for s in body
+        if not (isinstance(s, ast.If) and not s.orelse and all(
+            isinstance(x, ast.Assign) and isinstance(x.value, ast.Call) and callee_name(x.value) == "load_data" for x in s.body))
+    ]
     init = [s for s in body if isinstance(s, ast.Assign)]
     loops = [s for s in body if isinstance(s, (ast.For, ast.AsyncFor))]
     rets = [s for s in body if isinstance(s, ast.Return)]
@@ -284,6 +303,26 @@ def _plan(ctx: Ctx, fn: FuncInfo) -> Tuple[Dict[str, str], List[str]]:
             g = s.value.generators[0]
             if path_of(g.iter) == right and isinstance(s.value.elt, ast.Attribute) and s.value.elt.attr == "obj" and not g.ifs:
                 values_var = path_of(s.targets[0])
+        if isinstance(s, ast.Assign) and path_of(s.targets[0]) == acc and isinstance(s.value, ast.Call) and values_var is not None:
+            # a helper generator `acc = H(acc, right_values)`: yield x for x in p0 if x.obj in p1
+            site = ctx.callgraph.by_node.get(id(s.value))
+            helper = site.callees[0] if site is not None and len(site.callees) == 1 else None
+            args = [path_of(a) for a in s.value.args]
+            if helper is not None and len(args) == 2:
+                hp = [a.arg for a in helper.node.args.args]
+                loops_h = [x for x in helper.node.body if isinstance(x, (ast.For, ast.AsyncFor))]
+                if len(hp) == 2 and len(loops_h) == 1 and path_of(loops_h[0].iter) == hp[0] and len(loops_h[0].body) == 1 and isinstance(loops_h[0].body[0], ast.If):
+                    cond = loops_h[0].body[0]
+                    elem = path_of(loops_h[0].target)
+                    ys = [y for y in cond.body if isinstance(y, ast.Expr) and isinstance(y.value, ast.Yield)]
+                    if (
+                        not cond.orelse and len(ys) == 1 and path_of(ys[0].value.value) == elem  # type: ignore[union-attr]
+                        and isinstance(cond.test, ast.Compare) and isinstance(cond.test.ops[0], ast.In)
+                        and path_of(cond.test.left) == f"{elem}.obj" and path_of(cond.test.comparators[0]) == hp[1]
+                    ):
+                        inter_src = args[0]
+                        inter_val = "value"
+                        inter_container = "right values" if args[1] == values_var else f"?{args[1]}"
         if isinstance(s, ast.Assign) and path_of(s.targets[0]) == acc and isinstance(s.value, (ast.ListComp, ast.GeneratorExp)):
             g = s.value.generators[0]
             inter_src = path_of(g.iter)
@@ -370,4 +409,97 @@ def r11_4(ctx: Ctx) -> RuleResult:
     return rr
 
 
-RULES = [r11_1, r11_2, r11_3, r11_4]
+def r11_5(ctx: Ctx) -> RuleResult:
+    """Every operand of a compound query records its own root kind (= R13.6)."""
+    from .c13 import r13_6
+
+    rr = r13_6(ctx)
+    rr.rule = "R11.5"
+    for f in rr.findings:
+        f.rule = "R11.5"
+    return rr
+
+
+def r11_6(ctx: Ctx) -> RuleResult:
+    """Lazily evaluated code created in a loop must not capture a variable that
+    a later iteration rebinds (Python closures and generator expressions bind
+    late): with two or more `&` operands every intersection would be filtered
+    by the *last* operand's values."""
+    rr = RuleResult("R11.6", "lazy compound pipelines do not capture loop-rebound variables", floor=2)
+    comp = ctx.repo.require_class("jsonpath.path.CompoundJSONPath")
+    n = 0
+    for name, fn in sorted(comp.methods.items()):
+        for loop in [x for x in ast.walk(fn.node) if isinstance(x, (ast.For, ast.AsyncFor))]:
+            rebound = set()
+            for x in ast.walk(loop):
+                if isinstance(x, ast.Name) and isinstance(x.ctx, ast.Store):
+                    rebound.add(x.id)
+            for g in [x for x in ast.walk(loop) if isinstance(x, (ast.GeneratorExp, ast.Lambda))]:
+                n += 1
+                if isinstance(g, ast.GeneratorExp):
+                    own = {y.id for gen in g.generators for y in ast.walk(gen.target) if isinstance(y, ast.Name)}
+                    lazy_parts = [g.elt] + [c for gen in g.generators for c in gen.ifs] + [gen.iter for gen in g.generators[1:]]
+                else:
+                    own = {a.arg for a in g.args.args}
+                    lazy_parts = [g.body]
+                captured = {
+                    y.id for part in lazy_parts for y in ast.walk(part)
+                    if isinstance(y, ast.Name) and isinstance(y.ctx, ast.Load) and y.id in rebound and y.id not in own
+                }
+                if captured:
+                    rr.bad(fn, g, f"the lazily evaluated `{short(g, 80)}` refers to {sorted(captured)}, which the "
+                           "enclosing loop rebinds on its next iteration: when the pipeline is finally consumed, "
+                           "every intersection is filtered by the last operand's values "
+                           "(`$.a.* & $.b.* & $.c.*` differs between finditer and findall)",
+                           construct=f"{name}: lazy capture of {sorted(captured)}")
+                else:
+                    rr.ok(fn.loc(g), f"{fn.qualname}: `{short(g, 60)}` captures no loop-rebound variable")
+    # helper generator functions bind their arguments at call time: count them as instances too
+    for name, fn in sorted(comp.methods.items()):
+        for c in calls(fn.node):
+            callee = ctx.callgraph.by_node.get(id(c))
+            if callee is not None and callee.callees and any(_is_generator(x) for x in callee.callees) and callee.callees[0].module.name == "jsonpath.path":
+                n += 1
+                rr.ok(fn.loc(c), f"{fn.qualname}: `{short(c, 60)}` binds its arguments when called")
+    if n < 2:
+        raise AnalysisError("R11.6: no lazy pipeline stage found in the compound iterators")
+    return rr
+
+
+def _is_generator(fn: FuncInfo) -> bool:
+    from sa.callgraph import _own_nodes
+
+    return any(isinstance(x, (ast.Yield, ast.YieldFrom)) for x in _own_nodes(fn.node))
+
+
+def r11_7(ctx: Ctx) -> RuleResult:
+    """A document given as text or as a readable file is read once: operands of a
+    compound query must not each load it again (a file object is empty the second time)."""
+    rr = RuleResult("R11.7", "a compound query loads its document once", floor=4)
+    comp = ctx.repo.require_class("jsonpath.path.CompoundJSONPath")
+    for name in ("findall", "finditer", "findall_async", "finditer_async"):
+        fn = comp.methods.get(name)
+        if fn is None:
+            raise AnalysisError(f"CompoundJSONPath.{name} not found")
+        dparam = fn.node.args.args[1].arg
+        # names holding the loaded document
+        loaded = {
+            path_of(a.targets[0]) for a in ast.walk(fn.node)
+            if isinstance(a, ast.Assign) and isinstance(a.value, ast.Call) and callee_name(a.value) == "load_data"
+            and a.value.args and path_of(a.value.args[0]) == dparam
+        }
+        operand_calls = [
+            c for c in calls(fn.node)
+            if callee_name(c) in ("findall", "finditer", "findall_async", "finditer_async") and c.args
+        ]
+        raw = [c for c in operand_calls if path_of(c.args[0]) == dparam and dparam not in loaded]
+        if len(raw) > 1 or (raw and any(isinstance(x, (ast.For, ast.AsyncFor)) for x in ast.walk(fn.node))):
+            rr.bad(fn, raw[0], f"every operand of the compound query is given the caller's `{dparam}` and loads it "
+                   "again: a readable file yields its text only once, so the second operand fails to decode it",
+                   construct=f"{name}: operands reload {dparam}")
+        else:
+            rr.ok(fn.loc(), f"{name}: operands are evaluated on the document loaded once ({sorted(x for x in loaded if x)})")
+    return rr
+
+
+RULES = [r11_1, r11_2, r11_3, r11_4, r11_5, r11_6, r11_7]
